@@ -1,7 +1,13 @@
 use crate::engine::{self, Extra, Tier};
 use std::path::Path;
 
+pub mod c01;
+pub mod c02;
+pub mod c03;
+pub mod c08;
+pub mod c09;
 pub mod c12;
+pub mod gwgen;
 
 macro_rules! dispatch {
     ($id:expr, $f:ident, $($name:literal => $p:expr),* $(,)?) => {
@@ -15,6 +21,11 @@ macro_rules! dispatch {
 pub fn run(id: &str, tier: Tier, seed: u64) -> i32 {
     macro_rules! go { ($p:expr) => { engine::run_property($p, tier, seed, Extra::new()) }; }
     dispatch!(id, go,
+        "C01" => c01::C01,
+        "C02" => c02::C02,
+        "C03" => c03::C03,
+        "C08" => c08::C08,
+        "C09" => c09::C09,
         "C12" => c12::C12,
     )
 }
@@ -22,6 +33,11 @@ pub fn run(id: &str, tier: Tier, seed: u64) -> i32 {
 pub fn replay(id: &str, path: &Path) -> i32 {
     macro_rules! go { ($p:expr) => { engine::replay_property($p, path) }; }
     dispatch!(id, go,
+        "C01" => c01::C01,
+        "C02" => c02::C02,
+        "C03" => c03::C03,
+        "C08" => c08::C08,
+        "C09" => c09::C09,
         "C12" => c12::C12,
     )
 }
